@@ -403,7 +403,7 @@ func TestC12(t *testing.T) {
 		if o.filter != "" {
 			classes = append(classes, "filter/"+o.filter)
 		}
-		col.Case(nontrivial, ev.Fingerprint(o.guards, o.filter, c.SignMode, c.DestKind, c.Query.DestPrefixed, o.disclosed), classes, func() any {
+		col.Case(nontrivial, ev.Fingerprint(o.guards, o.filter, c.SignMode, c.DestKind, c.Query.DestPrefixed, o.disclosed, len(c.Query.Attrs), c.Query.Subject == A, c.Spec.IdP.IssuerMode, len(c.Spec.Users[0].Custom)), classes, func() any {
 			return map[string]any{"issuer": c.Query.Issuer, "subject": c.Query.Subject, "requested": c.Query.Attrs, "destination": c.Query.Destination, "dest_prefixed": c.Query.DestPrefixed, "sign_mode": c.SignMode, "disclosed": o.disclosed, "guards_violated": o.guards, "filter": o.filter}
 		})
 		return o.vs
